@@ -44,7 +44,9 @@ def gen_c08(tier, rng):
     # typed arguments
     typed = [("i", "0"), ("i", "-42"), ("i", "2147483647"), ("i", "-2147483648"), ("l", "9223372036854775807"),
              ("c", "x"), ("c", "{"), ("c", "}"), ("d", "1.5"), ("d", "-0.25"), ("d", "100"), ("d", "0"),
-             ("s", ""), ("s", "{}"), ("s", "a b"), ("s", "\xff\x80"), ("p", "{}"), ("p", ""), ("p", "lit")]
+             ("s", ""), ("s", "{}"), ("s", "a b"), ("s", "\xff\x80"), ("p", "{}"), ("p", ""), ("p", "lit"),
+             # user types whose inserters leave sticky formatting state behind (hex/showbase; fixed/precision)
+             ("h", "0xff"), ("h", "0x10"), ("f", "2.50"), ("f", "-0.13"), ("i", "255"), ("d", "0.125")]
     for n in (1, 2, 3):
         combos = list(itertools.product(typed, repeat=n)) if n < 3 else \
             [tuple(rng.choice(typed) for _ in range(3)) for _ in range(600 if big else 200)]
@@ -52,7 +54,9 @@ def gen_c08(tier, rng):
             fmt = rng.choice(["{}" * n, "a{}" * n + "b", "{{}}" + "{} " * (n - 1), "{}" * (n + 1), "x" + "{}" * (n - 1) if n > 1 else "x"])
             api = rng.choice(APIS)
             out.append(case("fmt", "str", api, hexs(fmt), argf([tok(t, x) for t, x in combo])))
-            if rng.chance(1, 3):
+            # (exception messages are built in ONE stream, `msg << a << b`, so there a sticky inserter legitimately
+            # shows in what follows, as with any stream: those argument types stay out of the exception family)
+            if rng.chance(1, 3) and not any(t in "hf" for t, _ in combo):
                 out.append(case("fmt", "exc", rng.choice(["ctor", "raise"]), argf([tok(t, x) for t, x in combo])))
     for n in (4, 5, 6):
         for _ in range(20):
